@@ -88,6 +88,7 @@ def run(ctx):
             if not ok:
                 raise vlib.Infra("binding self-test: corrupted trace was accepted")
     first_access(ctx, quick)
+    filter_stage(ctx, quick, behs)
     ctx.assumptions += [
         "real-thread histories sample schedules; they do not enumerate interleavings inside the collection mutex",
         "creation-time classes are compared in the sequential replay only",
@@ -125,6 +126,42 @@ def first_access(ctx, quick):
                       "persistent-backed state, %s at line %d: %s" % (what, lno, (details[i] if i < len(details) else "")[:600]),
                       {"tid": tid, "line": lno, "behaviour": behs[int(tid.split("#")[1])],
                        "trace": [t for t in traces if t[0] == tid][0][1][:lno + 1]})
+
+
+def filter_stage(ctx, quick, behs):
+    """S3d: the access-rule wrapper state.Filter (Filter.tla): the rule is consulted exactly once per call with the access the
+    call makes, a denied call never reaches the wrapped state and returns the rule's error, an allowed call is transparent."""
+    sub = behs[:40 if quick else 400]
+    inp = os.path.join(ctx.scratch, "filterbehs.json")
+    json.dump(sub, open(inp, "w"))
+    binary = vlib.go_build_test(ctx, "c01")
+    out = os.path.join(ctx.scratch, "filter.ndjson")
+    vlib.go_run(ctx, binary, "TestFilter", {"VERIF_IN": inp, "VERIF_OUT": out}, timeout=1500)
+    recs = vlib.read_ndjson(out)
+    mism, consumed, r = vlib.validate(ctx, "TraceFilter", "TraceFilter.cfg", out, timeout=1500, name="val-filter")
+    if consumed != len(recs):
+        raise vlib.Infra("TraceFilter consumed %s of %d\n%s" % (consumed, len(recs), r.out[-2000:]))
+    details = [x for x in r.out.splitlines() if x.startswith('<<"DETAIL"')]
+    calls = [x for x in recs if x["ev"] == "call"]
+    ctx.cov["filter_calls_judged"] = len(calls)
+    ctx.cov["filter_calls_denied"] = len([x for x in calls if x["cls"] == "denied"])
+    ctx.cov["traces_validated_against_impl"] += len(sub)
+    for i, line in enumerate(mism):
+        m = re.match(r'<<"MISMATCH", "([^"]*)", (\d+), "([^"]*)">>', line)
+        tid, lno, what = m.group(1), int(m.group(2)), m.group(3)
+        ctx.violation("filter/%s/%s" % (what, recs[lno - 1]["op"]), "state.Filter: %s: %s" % (what, (details[i] if i < len(details) else "")[:600]),
+                      {"tid": tid, "line": lno, "record": recs[lno - 1]})
+    good = [x for x in calls if x["cls"] == "denied"]
+    if good:
+        import copy
+        t2 = [copy.deepcopy(good[0])]
+        t2[0]["ninner"] = 1
+        p = os.path.join(ctx.scratch, "fself.ndjson")
+        vlib.write_ndjson(p, t2)
+        m2, _, _ = vlib.validate(ctx, "TraceFilter", "TraceFilter.cfg", p, name="selftest-filter")
+        ctx.cov["binding_selftest"].append({"corrupted": "a denied call logged as having reached the state", "rejected": len(m2) > 0})
+        if not m2:
+            raise vlib.Infra("binding self-test: corrupted filter trace accepted")
 
 
 def _stack_family(stack):
